@@ -17,30 +17,34 @@ from harness.rigs import envrig
 MANIFEST = {
     "text": "Lean 4 proof of the episode bookkeeping for EVERY simulator that returns, every agent policy, reward function, duplicate-free "
             "evaluation order and finite action sequence: the tick counter equals the number of steps; every agent has exactly one history "
-            "item per step stamped 0..n-1; truncated is reported iff the number of steps has reached the maximum (also on steps taken after "
-            "truncation), terminated never; every agent's episode total equals the sum of its saved step rewards; a reset yields tick 0, "
-            "empty histories and zero totals as a function of the episode configuration only (C01_episode_contract and its lemmas); and, "
-            "with the request layer of C05 as the simulator, every history item carries a response with one of the four documented "
-            "statuses provided every HANDLER answers with one (refusals built by the request manager always do: C01_responses_documented, "
-            "with the counterexample C01_handler_contract_needed). PARTIAL: that the real step/reset return at all (no exception, finite "
-            "reward) is not a theorem - it is checked by the rig R-env, which runs the real environment (a) on shipped scenarios and on "
-            "variants with generated action maps (every action type x existing/missing/powered-off components), several episodes with "
-            "mid-episode resets, runs past truncation and the rest of the public surface (action_masks, spaces, close, reset with/without "
-            "seed and options) in between; (b) on DISTURBED FULL-LENGTH episodes of every shipped scenario with scripted red agents: blue "
-            "takes one or two actions of its own map at times placed before / inside every kill-chain stage of an undisturbed probe "
-            "episode (thorough: the whole action x stage grid); (c) on scenarios with several RL agents through PrimaiteGame driven as "
-            "PrimaiteRayMARLEnv drives it; comparing the bookkeeping with the model line by line. Obligation 'scripted agents are total "
-            "under every response history': the real agent classes are driven standalone through C19's driver with bounded-exhaustive "
-            "failure injection; a raise there is a broken obligation and the check then searches the disturbed-episode grid for an "
-            "episode that realises it. Tie: the call order of step/advance_timestep/apply_agent_actions/update_agents/reset (gym and MARL "
-            "environments), the truncation comparator (translated from source), the literal terminated=False, the single history append, "
-            "the fields of AgentHistoryItem and the Literal of RequestResponse.status are regenerated from source (Gen/Episode.lean, "
-            "obligations C01_gen_pipeline, C01_gen_history_item).",
+            "item per step stamped 0..n-1 and the last item is the one of this step (C01_info_last_item); truncated is reported iff the "
+            "number of steps has reached the maximum, also on steps taken after truncation (C01_truncated_whole_run), terminated never; "
+            "every agent's episode total equals the sum of its saved step rewards; a reset yields tick 0, empty histories and zero totals as "
+            "a function of the episode configuration only (C01_episode_contract and its lemmas); and, with the request layer of C05 as the "
+            "simulator, every history item carries a response with one of the four documented statuses PROVIDED every handler answers with "
+            "a RequestResponse - refusals built by the request manager always do (C01_responses_documented, counterexample "
+            "C01_handler_contract_needed). PARTIAL: that the real step/reset return at all (no exception, finite reward) and that every "
+            "handler keeps its contract is not a theorem - it is checked by the rig R-env, which runs the real environment (a) on shipped "
+            "scenarios and on variants with generated action maps (every action type x existing/missing/powered-off components), several "
+            "episodes with mid-episode resets, runs past truncation and the rest of the public surface (action_masks, spaces, close, reset "
+            "with/without seed and options) in between; (b) on DISTURBED FULL-LENGTH episodes of the shipped scenarios with scripted red "
+            "agents: blue takes one or two actions of its own map at times placed before / inside every kill-chain stage of an undisturbed "
+            "probe episode (quick: the actions whose targets the red agents use, read from the scenario file, capped; thorough: the whole "
+            "action x stage grid); (c) on scenarios with several RL agents through PrimaiteGame driven as PrimaiteRayMARLEnv drives it, and "
+            "on scenarios without an RL agent through PrimaiteGame.step(); (d) on reward configurations with extreme but non-overflowing "
+            "weights; comparing the bookkeeping with the model line by line. Obligation 'scripted agents are total under every response "
+            "history': the real agent classes are driven standalone through C19's driver with bounded-exhaustive failure injection; a raise "
+            "there is a broken obligation and the check then searches the disturbed-episode grid for an episode that realises it (else: "
+            "no-failing-input-found). Tie: the call order of step/advance_timestep/apply_agent_actions/update_agents/reset (gym environment, "
+            "MARL environment, PrimaiteGame.step), the truncation comparator (translated from source), the literal terminated=False, the "
+            "single history append, the fields and the single construction site of AgentHistoryItem and the Literal of "
+            "RequestResponse.status are regenerated from source (Gen/Episode.lean, obligations C01_gen_pipeline, C01_gen_history_item).",
     "note": "C01-specific: Python exceptions inside handlers/observations/rewards and float overflow are outside the model; totality is "
-            "validated by execution only. Scenario families: shipped scenarios x generated action maps and members of the generated topology "
-            "families (switched LAN, routed, firewall+DMZ) from harness/gen/scenario.py. The RLlib wrappers (PrimaiteRayEnv, "
-            "PrimaiteRayMARLEnv) cannot be imported here (ray.rllib needs dm_tree); their step/reset order is pinned by Gen and mirrored by "
-            "the rig's own driver.",
+            "validated by execution only (one or two blue disturbances per episode, one reset seed per scenario and run). Scenario families: "
+            "shipped scenarios x generated action maps and members of the generated topology families (switched LAN, routed, firewall+DMZ) "
+            "from harness/gen/scenario.py. Reward weights of magnitude 1e308 overflow to inf/nan by IEEE arithmetic: treated as outside the "
+            "property's domain (counted in the evidence, never reported). The RLlib wrappers (PrimaiteRayEnv, PrimaiteRayMARLEnv) cannot be "
+            "imported here (ray.rllib needs dm_tree); their step/reset order is pinned by Gen and mirrored by the rig's own driver.",
     "technique": "Lean 4 induction over action sequences on a parametric episode model; regenerated pipeline table; differential env rig "
                  "with disturbed long episodes sharded over worker processes; standalone agent-totality sweep with search",
     "design_ref": "5/C01",
@@ -124,8 +128,11 @@ def _count(rec: dict, key: str, n: int = 1):
 
 
 def _sig(f: dict) -> dict:
+    """Narrow identity of a defect: what failed, which exception, raised where (innermost primaite frame).  The blue action of the
+    failing step is in the replay, not in the signature: an exception in a scripted agent or a service surfaces under whatever
+    blue happened to do in that step."""
     sig = {"kind": f["kind"]}
-    for k in ("exc", "action", "where"):
+    for k in ("exc", "where"):
         if f.get(k) is not None:
             sig[k] = f[k]
     return sig
@@ -240,6 +247,27 @@ def _do_marl(rec: dict, unit: dict):
             _count(rec, "marl-step")
             rec["cases"].append((f"{unit['scenario']}|marl|{i}|{json.dumps(a, sort_keys=True)}", any(v != 0 for v in a.values())))
     rec["samples"].append({"scenario": unit["scenario"], "variant": "marl", "ops": p.log[:6], "impl": p.impl[2:5]})
+
+
+def _do_game(rec: dict, unit: dict):
+    """Scenario shipped WITHOUT an RL agent, advanced by `PrimaiteGame.step()` itself."""
+    try:
+        cfg = _load(unit["scenario"])
+    except Exception as e:
+        rec["notes"].append(f"{unit['scenario']}: not loadable: {type(e).__name__}")
+        return
+    rng: Rng = unit["rng"]
+    max_len = unit["max_len"]
+    ops: List[Any] = []
+    for ep in range(unit["episodes"]):
+        ops.append(["reset", rng.below(2 ** 31), None])
+        ops += [0] * (max_len + 3 if ep else rng.range(1, max_len))
+    p = envrig.run_ops(cfg, ops, max_len, marl="game")
+    _absorb(rec, p, unit["scenario"], "game.step", cfg, max_len, marl="game")
+    _count(rec, "case:game.step")
+    _count(rec, "game.step:steps", p.steps)
+    _count(rec, "game.step:agents-in-scenario", len(cfg.get("agents", [])))
+    rec["cases"].append((f"{unit['scenario']}|game.step|{len(ops)}", True))
 
 
 def _do_probe(rec: dict, unit: dict):
@@ -370,15 +398,15 @@ def _do_corpus(rec: dict, unit: dict):
     _count(rec, "corpus:replayed")
     rec["cases"].append(("corpus|" + unit["label"], True))
     if rp.get("kind", "env") == "env":
-        p = envrig.run_ops(_cfg_of(rp), rp["ops"], rp.get("max_len"), marl=bool(rp.get("marl")))
-        _absorb(rec, p, rp.get("scenario", unit["label"]), "corpus:" + unit["label"], _cfg_of(rp), rp.get("max_len"), marl=bool(rp.get("marl")))
+        p = envrig.run_ops(_cfg_of(rp), rp["ops"], rp.get("max_len"), marl=rp.get("marl") or False)
+        _absorb(rec, p, rp.get("scenario", unit["label"]), "corpus:" + unit["label"], _cfg_of(rp), rp.get("max_len"), marl=rp.get("marl") or False)
         _scripted_hist(rec, p, "corpus")
     elif not replay(w):
         rec["viol"].append({"sig": w.get("sig", {"kind": "corpus"}), "what": f"corpus witness {unit['label']} fails again: {w.get('what', '')[:200]}",
                             "replay": rp, "agent_file": None, "kind": "corpus"})
 
 
-KINDS = {"corpus": _do_corpus, "rewards": _do_rewards, "case": _do_case, "sched": _do_sched, "marl": _do_marl, "probe": _do_probe, "disturb": _do_disturb, "agents": _do_agents}
+KINDS = {"game": _do_game, "corpus": _do_corpus, "rewards": _do_rewards, "case": _do_case, "sched": _do_sched, "marl": _do_marl, "probe": _do_probe, "disturb": _do_disturb, "agents": _do_agents}
 
 
 def _exec_unit(unit: dict) -> dict:
@@ -390,6 +418,12 @@ def _exec_unit(unit: dict) -> dict:
         import traceback
         rec["broken"] = traceback.format_exc()[-1500:]
     rec["wall"] = time.time() - t0
+    if os.environ.get("C01_PROGRESS"):      # optional progress log (one line per finished unit); never read by the check
+        try:
+            with open(os.environ["C01_PROGRESS"], "a") as fh:
+                fh.write(f"{time.strftime('%H:%M:%S')} {unit['kind']}:{unit.get('label', '')} {rec['wall']:.1f}s viol={len(rec['viol'])}\n")
+        except OSError:
+            pass
     return rec
 
 
@@ -439,6 +473,19 @@ def _phase1(ctx: Ctx, rng: Rng) -> List[dict]:
         if name in shipped:
             units.append({"kind": "marl", "label": name, "scenario": name, "rng": rng.fork("marl" + name), "max_len": rng.choice([9, 21]),
                           "episodes": ctx.scale(2, 4), "weight": 6})
+    for name, path in shipped.items():       # scenarios shipped without an RL agent but with scripted ones: PrimaiteGame.step()
+        if name in SKIP:
+            continue
+        try:
+            c = scen.load_cfg(path)
+        except Exception:
+            continue
+        if c.get("agents") and not envrig.proxy_agent_cfgs(c):
+            slow = name.startswith("nmap_")     # a scripted port scan of a whole subnet costs seconds per step: thorough tier only, short
+            if slow and not ctx.thorough:
+                continue
+            units.append({"kind": "game", "label": name, "scenario": name, "rng": rng.fork("game" + name), "max_len": 9 if slow else rng.choice([9, 21]),
+                          "episodes": 2 if slow else ctx.scale(2, 4), "weight": 40 if slow else 3})
     for name in ("data_manipulation", "shared_rewards"):
         if name in shipped:
             units.append({"kind": "rewards", "label": name, "scenario": name, "rng": rng.fork("rew" + name), "n": ctx.scale(6, 30),
@@ -500,18 +547,19 @@ def _phase2(ctx: Ctx, rng: Rng, probes: List[Tuple[dict, dict]]) -> List[dict]:
         r = rng.fork("plan" + unit["label"])
         big = "uc7" in unit["label"]
         if ctx.thorough:
-            full = unit["label"] in GRID
-            items = dist.plan(cfg, ex["buckets"], r, full, n_sample=12, n_pairs=24, cap=10 ** 6)
-            if not full:      # the other scenarios: every relevant action in every bucket + a sample of the rest
+            if unit["label"] in GRID:       # every action of the map in every bucket, plus pairs
+                items = dist.plan(cfg, ex["buckets"], r, True, n_sample=0, n_pairs=12)
+            else:                           # the other scenarios: relevant action x bucket cells (a seeded sample of 24), a few others, pairs
                 rel = set(ex["relevant"])
-                items = [it for it in dist.plan(cfg, ex["buckets"], r, True, 0, 12) if it["why"] == "pair" or it["dist"][0][1] in rel]
-                items += [it for it in dist.plan(cfg, ex["buckets"], r.fork("s"), False, 10, 0, cap=0) if it["why"] == "sampled"]
+                cells = [it for it in dist.plan(cfg, ex["buckets"], r, True, 0, 0) if it["dist"][0][1] in rel]
+                items = r.shuffle(cells)[:24]
+                items += [it for it in dist.plan(cfg, ex["buckets"], r.fork("s"), False, 4, 3, cap=0)]
         else:
             # quick: the relevant actions (capped; different action types first), a few of the others, a few pairs
             n_rel = len(ex.get("relevant") or [])
-            cap = min(n_rel, 16 if n_rel <= 24 else 10) if big else 12
+            cap = min(n_rel, 14 if n_rel <= 24 else 10) if big else 12
             items = dist.plan(cfg, ex["buckets"], r, False, n_sample=2, n_pairs=2, cap=cap)
-        chunk = CHUNK if ctx.thorough else 4
+        chunk = CHUNK if ctx.thorough else 3
         for i in range(0, len(items), chunk):
             units.append({"kind": "disturb", **spec, "seed": unit["seed"], "items": items[i:i + chunk], "sample": i == 0,
                           "weight": (14 if big else 5) * len(items[i:i + chunk])})
@@ -554,7 +602,7 @@ def replay(rec: dict) -> bool:
     ops = rp.get("ops")
     if ops is None:      # records written by the first version of the check: "reset" entries without a seed
         ops = [["reset", rp.get("seed"), None] if a == "reset" else a for a in rp.get("log", [])]
-    p = envrig.run_ops(_cfg_of(rp), ops, rp.get("max_len"), marl=bool(rp.get("marl")))
+    p = envrig.run_ops(_cfg_of(rp), ops, rp.get("max_len"), marl=rp.get("marl") or False)
     if p.fails:
         return False
     exe = LEAN / ".lake" / "build" / "bin" / EXE
